@@ -45,6 +45,7 @@ def render_rules(src, posix=False, use_scopes=False, xseed=None):
             if r["bol"]:
                 pat = "^" + pat
             act = r.get("action") or ("{ VACT(%d) }" % k)
+            if r.get("bar"): act = "|"          # same action as the next rule
             if use_scopes and r["scs"] and r["scs"] != [0]:
                 lines.append("%s{" % prefix(r["scs"]))
                 lines.append("%s  %s" % (pat, act))
